@@ -144,6 +144,7 @@ class Interp:
         self.ambiguous is set when the choice changed any value, so that a caller can evaluate both references"""
         self.mul_mode = mul_mode
         self.ambiguous = False
+        self.loose = 0  # extra tolerance (in output steps) the evaluated reference kernels ask for
         self.model = model
         self.sg = model["subgraphs"][0]
         self.T = self.sg["tensors"]
@@ -310,6 +311,64 @@ class Interp:
             axis = int(self.get(values, ins[0]).flatten()[0])
             x = self.get(values, ins[1])
             return list(np.split(x, opts["NumSplits"], axis=axis))
+        if code in ("LOGISTIC", "TANH", "HARD_SWISH", "LEAKY_RELU"):
+            # 8-bit activations are table driven in the reference; the table is what defines the function
+            it = T[ins[0]]
+            if it["dtype"] not in ("int8", "uint8") or ot["dtype"] != it["dtype"]:
+                raise Unsupported("%s on %s" % (code, it["dtype"]))
+            x = self.get(values, ins[0]).astype(I64)
+            si, zi = qparams(it)
+            so, zo = qparams(ot)
+            lo, hi = dtype_range(it["dtype"])
+            if code in ("LOGISTIC", "TANH"):
+                # tflite PopulateLookupTable: float32 arithmetic, std::round
+                f32 = np.float32
+                v = np.arange(lo, hi + 1, dtype=np.int64)
+                deq = f32(si[0]) * (v - int(zi[0])).astype(f32)
+                with np.errstate(over="ignore"):
+                    tr = np.tanh(deq.astype(f32)) if code == "TANH" else (f32(1) / (f32(1) + np.exp(-deq.astype(f32)))).astype(f32)
+                resc = tr.astype(f32) * (f32(1) / f32(so[0]))
+                r = np.where(resc >= 0, np.floor(resc + f32(0.5)), np.ceil(resc - f32(0.5))).astype(np.int64) + int(zo[0])
+                table = np.clip(r, lo, hi)
+            else:
+                from props import c19
+
+                if code == "HARD_SWISH":
+                    table = np.asarray(c19.ref_hardswish_table(it["dtype"], si[0], int(zi[0]), so[0], int(zo[0])), I64)
+                else:
+                    tabs = c19.ref_lrelu_tables(it["dtype"], si[0], int(zi[0]), so[0], int(zo[0]), opts.get("Alpha", 0.0))
+                    table = np.asarray(tabs[0], I64)
+            return [table[x - lo]]
+        if code == "MEAN":
+            it = T[ins[0]]
+            if it["dtype"] not in ("int8", "uint8"):
+                raise Unsupported("MEAN on %s" % it["dtype"])
+            x = self.get(values, ins[0]).astype(I64)
+            axes = tuple(int(a) % x.ndim for a in self.get(values, ins[1]).flatten())
+            si, zi = qparams(it)
+            so, zo = qparams(ot)
+            lo, hi = dtype_range(ot["dtype"])
+            m = (x - int(zi[0])).sum(axis=axes, keepdims=bool(opts.get("KeepDims"))).astype(np.float64) / float(np.prod([x.shape[a] for a in axes]))
+            r = m * (float(si[0]) / float(so[0]))
+            q = np.where(r >= 0, np.floor(r + 0.5), np.ceil(r - 0.5)).astype(I64) + int(zo[0])
+            self.loose = max(self.loose, 2)  # exact real mean, not the reference's integer pipeline: one more step of slack
+            return [np.clip(q, lo, hi).reshape(ot["shape"])]
+        if code == "RESIZE_NEAREST_NEIGHBOR":
+            x = self.get(values, ins[0])
+            n, h, w, c = x.shape
+            oh, ow = [int(v) for v in self.get(values, ins[1]).flatten()]
+            align, half = bool(opts.get("AlignCorners")), bool(opts.get("HalfPixelCenters"))
+
+            def idx(o, i):
+                # tflite reference ResizeNearestNeighbor (float32 scale, std::round / floor)
+                f32 = np.float32
+                scale = f32(i - 1) / f32(o - 1) if (align and o > 1) else f32(i) / f32(o)
+                off = f32(0.5) if half else f32(0)
+                pos = (np.arange(o).astype(f32) + off) * scale
+                r = np.floor(pos + f32(0.5)) if align else np.floor(pos)
+                return np.minimum(r.astype(np.int64), i - 1)
+
+            return [x[:, idx(oh, h)][:, :, idx(ow, w)]]
         raise Unsupported("no reference kernel for %s" % (o["custom_code"] or code))
 
     def run(self, inputs):
